@@ -12,6 +12,7 @@ import (
 	"hash/fnv"
 	"os"
 	"path/filepath"
+	"regexp"
 	"runtime/debug"
 	"sort"
 	"strconv"
@@ -357,6 +358,8 @@ func Count(name string, n int) {
 
 // ---------------------------------------------------------------------------------------
 
+var unstable = regexp.MustCompile(`0x[0-9a-f]+|goroutine \d+|\+0x[0-9a-f]+`)
+
 // Call runs f and converts a panic of the code under test into a message.
 func Call(f func()) (panicked string) {
 	defer func() {
@@ -369,6 +372,8 @@ func Call(f func()) (panicked string) {
 			if len(stack) > 1800 {
 				stack = stack[:1800]
 			}
+			// addresses and goroutine numbers differ from run to run; rapid wants a stable message
+			stack = unstable.ReplaceAllString(stack, "…")
 			panicked = fmt.Sprintf("panic: %v\n%s", r, stack)
 		}
 	}()
